@@ -129,6 +129,7 @@ type Frame struct {
 	curIdx   int
 	curReach string
 	curState *State
+	isInit   bool   // executing a package initializer (calls to other initializers are skipped)
 	label    string // prefix for names
 	callerScopes []*modScope
 	fnScope      *modScope
@@ -601,18 +602,82 @@ func (g *Gen) strLit(t types.Type, s string) *SVal {
 	return scalar(t, KString, n)
 }
 
+// ensureInit evaluates the package initializer of an in-module package symbolically (once per unit), so
+// that immutable package-level variables have the values their initialisers give them.
+func (g *Gen) ensureInit(pkg *ssa.Package) {
+	if pkg == nil || !strings.HasPrefix(pkg.Pkg.Path(), g.P.ModPath) {
+		return
+	}
+	if g.initDone == nil {
+		g.initDone = map[string]bool{}
+	}
+	if g.initDone[pkg.Pkg.Path()] {
+		return
+	}
+	g.initDone[pkg.Pkg.Path()] = true
+	fn := pkg.Func("init")
+	if fn == nil || len(fn.Blocks) == 0 {
+		return
+	}
+	defer func() {
+		if r := recover(); r != nil {
+			if _, ok := r.(error); !ok {
+				panic(r)
+			}
+			g.note("package initializer of %s could not be evaluated (%v): its variables are unconstrained", pkg.Pkg.Path(), r)
+		}
+	}()
+	saveQ := g.inQuant
+	g.inQuant = 0
+	g.specMode++
+	defer func() { g.specMode--; g.inQuant = saveQ }()
+	fr := g.newFrame(fn, false)
+	fr.depth = 1
+	fr.isInit = true
+	imm := g.immState()
+	// the guard is false when the initializer starts
+	if gl, ok := pkg.Members["init$guard"].(*ssa.Global); ok {
+		imm.heaps["G|"+gl.String()+"#"] = "false"
+		g.heapSort["G|"+gl.String()+"#"] = SBool
+	}
+	fr.run("true", imm)
+	if len(fr.rets) == 0 {
+		return
+	}
+	var conds []string
+	var sts []*State
+	for _, r := range fr.rets {
+		conds = append(conds, r.reach)
+		sts = append(sts, r.st)
+	}
+	fin := g.join(sts, conds)
+	// materialise every heap the initializer touched
+	for _, st := range sts {
+		for k := range st.heaps {
+			g.heapGet(fin, k, g.heapSort[k])
+		}
+	}
+	for k, v := range fin.heaps {
+		if k == allocHeap {
+			continue
+		}
+		imm.heaps[k] = v
+	}
+	g.note("package initializer evaluated symbolically for immutable globals: %s", pkg.Pkg.Path())
+}
+
 func (g *Gen) globalAddr(x *ssa.Global) *SVal {
 	name := x.String()
 	et := x.Type().(*types.Pointer).Elem()
 	imm := !g.P.mutableGlobals[name]
+	if imm && g.specInit == 0 {
+		g.specInit++
+		g.ensureInit(x.Pkg)
+		g.specInit--
+	}
 	if isAggregate(et) {
-		n := sym("gaddr@" + name)
-		if !g.ufDecl[n] {
-			g.ufDecl[n] = true
-			g.decls = append(g.decls, fmt.Sprintf("(declare-const %s (_ BitVec 64))", n))
-			g.addAxiom(sAnd(sNot(sEq(n, bv64(0))), sEq(objOf(n), n)))
-		}
-		return &SVal{T: x.Type(), K: KPtr, Term: n, Imm: imm}
+		// distinct, fixed addresses below every allocation watermark
+		return &SVal{T: x.Type(), K: KPtr, Term: bv64(int64(1<<40) + int64(g.W.funcID("global:"+name))<<20), Imm: imm}
 	}
 	return &SVal{T: x.Type(), K: KPtr, Term: bv64(int64(1<<40) + int64(g.W.funcID("global:"+name))<<20), Prov: &Prov{Kind: 3, Fam: "G|" + name}, Imm: imm}
 }
